@@ -131,7 +131,7 @@ def gen_honest(rng, cfg, n, allow_close=True):
     return ops
 
 
-BAD_MSGS_13 = [("kuco", 0), ("kuco", 1), ("ku", 2), ("ku", 255), ("hsm", 24), ("hsm", 4), ("creq", 900, False), ("cert", 0, 1), ("cert", 901, 1),
+BAD_MSGS_13 = [("creq", 904, 2), ("kuco", 0), ("kuco", 1), ("ku", 2), ("ku", 255), ("hsm", 24), ("hsm", 4), ("creq", 900, False), ("cert", 0, 1), ("cert", 901, 1),
                ("cv",), ("fin",), ("hso", 1), ("hso", 0), ("hso", 14), ("hso", 8), ("ccs",), ("empty",), ("unk",),
                ("hb", 1, b"zz", 16), ("hb", 2, b"unsolicited", 16), ("hb", 7, b"q", 16), ("hbbad",), ("nst",),
                ("alert", 1, 90), ("alert", 2, 40), ("alert", 1, 0), ("alert", 2, 0), ("alert", 1, 100)]
@@ -337,6 +337,9 @@ def fatal_cases(ctx, lc):
     cases.append(("heartbeat-response-unsolicited", base13, [], "s", ("hb", 2, b"nobody asked", 16), None, "ignored"))
     cases.append(("heartbeat-short-padding", base13, [], "s", ("hb", 1, b"short pad", 3), None, "ignored"))
     cases.append(("heartbeat-bad-length", base13, [], "s", ("hbbad",), None, "ignored"))
+    cases.append(("pha-no-usable-signature-algorithm", base13, [("s", "pha", 2)], None, None, None, "fatal-c"))
+    cases.append(("pha-no-usable-signature-algorithm", base13, [("c", "write", b"x")], "s", ("creq", 902, 2), None, "fatal"))
+    cases.append(("pha-empty-signature-algorithms", base13, [], "s", ("creq", 903, 1), None, "fatal"))
     for t in range(1, 8):
         cases.append(("pha-tamper-%d" % t, dict(base13, tamper=t), [("s", "pha"), ("c", "read", None, 0)], None, None, None, "fatal-s"))
     for label, cfg, prelude, sender, spec, setup, expect in cases:
@@ -352,7 +355,7 @@ def fatal_cases(ctx, lc):
             cn.s.heartbeat_can_receive = False
             lines.append("set s hbCanRecv 0")
         n_init = len(lines)
-        recv = "s" if expect == "fatal-s" else ("s" if sender == "c" else "c")
+        recv = "s" if expect == "fatal-s" else ("c" if expect == "fatal-c" else ("s" if sender == "c" else "c"))
         snd = "c" if recv == "s" else "s"
         ops = list(prelude)
         if spec is not None:
@@ -375,7 +378,7 @@ def fatal_cases(ctx, lc):
             return rs[-1]
         r_recv, r_snd = first_event(raws[k:k + 3]), first_event(raws[k + 3:k + 6])
         rc, sc = cn.conn(recv), cn.conn(snd)
-        if expect in ("fatal", "fatal-s"):
+        if expect in ("fatal", "fatal-s", "fatal-c"):
             cls = lab.exc_class(r_recv[1]) if r_recv[0] == "error" else r_recv[0]
             ok = cls.startswith("local_alert:") and rc.closed and not rc.session.resumable
             if ok:
@@ -384,6 +387,8 @@ def fatal_cases(ctx, lc):
                 if cls2 != "remote_alert:" + d:
                     ok = False
                     cls = cls + " / sender saw " + cls2
+            if expect == "fatal-c" and not cls.startswith("local_alert:40"):
+                ok = False          # RFC 8446 4.4.3 / 9.2: no usable signature algorithm -> handshake_failure
             if expect == "fatal-s" and cn.s.session.clientCertChain is not None:
                 ok = False
                 cls += " / clientCertChain recorded"
@@ -502,7 +507,11 @@ def run(ctx):
     fatal_cases(ctx, lc)
     fragment_cases(ctx, lc)
     n_hist = 0
-    while ctx.elapsed() - t_start < budget and n_hist < ctx.pick(1500, 20000):
+    # load independence: the directed families above run first and are never cut; only this random bulk is
+    while n_hist < ctx.pick(1500, 20000):
+        if ctx.elapsed() - t_start >= budget:
+            ctx.count("cut-by-budget:random-histories")
+            break
         n_hist += 1
         flavour = "tls13" if rng.random() < 0.7 else "old"
         cfg = gen_cfg(rng, flavour)
